@@ -25,7 +25,7 @@ VARIABLE i
 
 ElemOk(E, pol, n, in, o) ==
   CASE E[n].k \in {"store", "ucfs"} -> (o.has /\ ~in.err) => o.ctx = in.ctx
-    [] E[n].k = "mf" ->
+    [] IsMF(E[n].k) ->
          LET x == NameOf(E, n, in) IN
          (o.has /\ ~x.free) => IF x.ok THEN ~o.noname /\ o.name = x.s ELSE o.noname
     [] E[n].k \in {"write", "cache"} ->
